@@ -10,7 +10,7 @@ import traceback
 
 import numpy as np
 
-from .. import boundgen
+from .. import boundgen, env
 
 ID = 'C09'
 LEVEL = 'exploration'
@@ -241,6 +241,8 @@ def run_case(spec):
     except RuntimeError as e:
         return {'status': 'skipped', 'reason': str(e), 'obs': obs}
     except Exception as e:
+        if not env.from_code_under_test(e):
+            raise          # harness error: never folded into 'skipped'
         return {'status': 'skipped', 'reason': 'raise outside the property: %r' % e,
                 'traceback': traceback.format_exc()[-1500:], 'obs': obs}
     finally:
